@@ -1107,6 +1107,25 @@ def builder(prog, fn, self_cls=None, inline=True, guarded=False, shallow=False, 
     return _builders[key]
 
 
+def top_alts(t):
+    """[(literals, term)]: the alternatives of a value that is chosen as a whole (conditional expression, guarded or
+    plain join), without pushing the choice through operators."""
+    from .guards import literals as _lits
+    if t[0] == "ifexp":
+        return [(tuple(_lits(t[1], True)) + l, v) for l, v in top_alts(t[2])] + [(tuple(_lits(t[1], False)) + l, v) for l, v in top_alts(t[3])]
+    if t[0] == "gphi":
+        out = []
+        for k, v in sorted(t[1], key=repr):
+            out += [(tuple(k) + l, vv) for l, vv in top_alts(v)]
+        return out
+    if t[0] == "phi":
+        out = []
+        for v in sorted(t[1], key=repr):
+            out += top_alts(v)
+        return out
+    return [((), t)]
+
+
 def dict_entries(t):
     """[(key, value, literals)] of a dict-valued term: displays, ** merges, dict(k=v) calls and comprehensions over the
     items of such a dict (their conditions become the entry's literals, e.g. 'value is not None'); None if not enumerable.
